@@ -187,11 +187,12 @@ pub fn tag_body(e: &Elem, sp: &Sp, multiline: bool) -> String {
             attrs.push(format!("name{eq}{q}{n}{q}"));
         }
     }
+    // an attribute is the attribute whether or not it carries a value
     if e.unwrap {
-        attrs.push("unwrap-block".into());
+        attrs.push(if r.chance(1, 12) { format!("unwrap-block={q}{q}") } else { "unwrap-block".into() });
     }
     if e.skip {
-        attrs.push("skip".into());
+        attrs.push(if r.chance(1, 12) { format!("skip={q}no{q}") } else { "skip".into() });
     }
     if r.chance(1, 4) {
         let other = if q == '"' { '\'' } else { '"' };
